@@ -6,8 +6,8 @@
     of [nrec] recordings, any of them failing in the wrapped storage), any interleaving of producer steps
     with the flusher's atomic steps, any firing pattern of the flush-interval timer ([CWake] is enabled
     whenever the flusher waits), the close signal at any moment after the last request. *)
-From Coq Require Import List NArith Bool Arith Permutation.
-From Playback Require Import Async.AsyncModel Async.AsyncFacts.
+From Coq Require Import List NArith ZArith Bool Arith Permutation.
+From Playback Require Import Base.Str Values.PyVal Async.AsyncModel Async.AsyncFacts.
 Import ListNotations.
 Open Scope list_scope.
 
@@ -140,8 +140,8 @@ Print Assumptions C12_runner_sound.
 (** two producers, two recordings, a failing storage call in the middle, a write racing with a save, a metadata
     dict the caller changes after passing it *)
 Definition ex_work : list (list op) :=
-  [ [Op 0 0 (SetData 1%N 10%N) false; Op 1 0 (SetData 2%N 20%N) true; Op 2 0 Save false];
-    [Op 0 1 (AddMetaMut [(1%N, 5%N)] 2%N 6%N) false; Op 1 0 (SetData 1%N 11%N) false; Op 2 1 Save false] ].
+  [ [Op 0 0 (SetData 1%N (VInt 10)) false; Op 1 0 (SetData 2%N (VInt 20)) true; Op 2 0 Save false];
+    [Op 0 1 (AddMetaMut [(1%N, VInt 5)] 2%N (VInt 6)) false; Op 1 0 (SetData 1%N (VInt 11)) false; Op 2 1 Save false] ].
 
 (** a complete run: the flusher works while requests arrive, one operation fails, the next ones still run,
     both recordings end up saved, and all hypotheses of the Done-theorems hold *)
@@ -195,7 +195,7 @@ Qed.
 
 (** a request refused at the caller (write on a recording whose save was already requested) *)
 Example C12_example_refused :
-  exists s, reach 1 [[Op 0 0 Save false; Op 1 0 (SetData 1%N 1%N) false]] s /\ fl s = Done /\
+  exists s, reach 1 [[Op 0 0 Save false; Op 1 0 (SetData 1%N (VInt 1)) false]] s /\ fl s = Done /\
             map snd (hist s) = [true; false] /\ length (applied s) = 1.
 Proof.
   eexists. split.
@@ -230,7 +230,7 @@ Qed.
 
 (** C12_single_producer: one caller thread, a failing storage call in the middle, nothing refused at the caller *)
 Example C12_single_producer_nonvacuous :
-  let l := [Op 0 0 (SetData 1%N 10%N) false; Op 1 0 (AddMeta [(2%N, 5%N)]) true; Op 2 0 (SetData 1%N 11%N) false; Op 3 0 Save false] in
+  let l := [Op 0 0 (SetData 1%N (VInt 10)) false; Op 1 0 (AddMeta [(2%N, VInt 5)]) true; Op 2 0 (SetData 1%N (VInt 11)) false; Op 3 0 Save false] in
   exists s, reach 1 [l] s /\ fl s = Done /\ forallb snd (hist s) = true /\
             map snd (applied s) = [true; false; true; true] /\ length (saved (wstore s)) = 1.
 Proof.
@@ -238,5 +238,26 @@ Proof.
   - eapply (run_schedule_reach 1 _ true
       [CProduce 0; CCheck false; CLock; CSwap; CProduce 0; CExec; CProduce 0; CWait; CWake; CCheck false; CLock; CSwap;
        CProduce 0; CClose; CExec; CExec; CWait; CWake; CCheck true; CLock; CSwap; CExec; CDone]); [apply reach_init | vm_compute; reflexivity].
+  - vm_compute. repeat split.
+Qed.
+
+(** values keep their type: a key set to None is stored (it is not "absent"), a value overwritten by one that compares
+    equal in Python but has another type ([0] by [False], [True] by [1.0]) is overwritten, an empty container is a value,
+    and writing the same item again is one more request that reaches the wrapped cassette - the C12 theorems are about
+    [val := pyval], so "stores exactly what synchronous recording would" is type-exact *)
+Example C12_example_typed_values :
+  let l := [Op 0 0 (AddMeta [(0%N, VNone)]) false; Op 1 0 (AddMeta [(1%N, VInt 0); (2%N, VBool true)]) false;
+            Op 2 0 (AddMeta [(1%N, VBool false); (2%N, VFloat (U"1.0"))]) false;
+            Op 3 0 (SetData 0%N (VList [])) false; Op 4 0 (SetData 0%N (VList [])) false; Op 5 0 Save false] in
+  exists s, reach 1 [l] s /\ fl s = Done /\ length (applied s) = 6 /\
+            saved (wstore s) = [(0, ([(0%N, VList [])],
+                                     [(0%N, VNone); (1%N, VBool false); (2%N, VFloat (U"1.0"))]))] /\
+            wstore s = sync_apply (init_store 1) (enq s).
+Proof.
+  eexists. split.
+  - eapply (run_schedule_reach 1 _ true
+      [CProduce 0; CProduce 0; CCheck false; CLock; CSwap; CExec; CProduce 0; CExec; CProduce 0; CWait; CWake;
+       CProduce 0; CProduce 0; CClose; CCheck true; CLock; CSwap; CExec; CExec; CExec; CExec; CDone]);
+      [apply reach_init | vm_compute; reflexivity].
   - vm_compute. repeat split.
 Qed.
